@@ -133,7 +133,8 @@ func docNodeAt(root *DocNode, path []int) (*DocNode, error) {
 //	set   : the node at Path becomes the scalar (V, St); it keeps its identity
 //	del   : the mapping entry / sequence element at Path is removed
 //	ins   : a new entry is put into the mapping at Path before original entry At (At = n+1: at the
-//	        end); key = Key transformed by Case ("" | "upper" | "mixed"); value = Val, or a deep copy
+//	        end); key = Key transformed by Case ("" | "upper" | "mixed": another spelling that differs
+//	        only in letter case, see docCase); value = Val, or a deep copy
 //	        of the (already edited) node at Copy.  The new value gets the identity New (default "new").
 //	rev   : the children of the collection at Path are written in reverse order
 //	key   : the key of the entry at Path is replaced by Key (identity unchanged)
@@ -154,16 +155,36 @@ type DocOp struct {
 func docCase(key, mode string) string {
 	switch mode {
 	case "upper":
-		return strings.ToUpper(key)
+		// every letter in the other case: upper case, or lower case if the key is upper case already
+		if u := strings.ToUpper(key); u != key {
+			return u
+		}
+		return strings.ToLower(key)
 	case "mixed":
-		// first letter upper case, every other letter unchanged: "runs-on" -> "Runs-on"
+		// the case of the first letter flipped: "runs-on" -> "Runs-on", "TOP" -> "tOP"
 		for i, r := range key {
-			if u := strings.ToUpper(string(r)); u != string(r) {
-				return key[:i] + u + key[i+utf8.RuneLen(r):]
+			s := string(r)
+			if u := strings.ToUpper(s); u != s {
+				return key[:i] + u + key[i+len(s):]
+			}
+			if l := strings.ToLower(s); l != s {
+				return key[:i] + l + key[i+len(s):]
 			}
 		}
 	}
 	return key
+}
+
+// docStyle: "single" / "double" are accepted as names of the quoting styles "'" and "\"" (TLC
+// configuration files cannot spell a double quote inside a string).
+func docStyle(st string) string {
+	switch st {
+	case "single":
+		return "'"
+	case "double":
+		return "\""
+	}
+	return st
 }
 
 // docApply returns an edited deep copy of base (base must carry identities).
@@ -208,9 +229,9 @@ func docApply(base *DocNode, ops []DocOp) (*DocNode, error) {
 		n := targets[i]
 		switch op.Op {
 		case "set":
-			n.K, n.V, n.St, n.E, n.P = "s", op.V, op.St, nil, nil
+			n.K, n.V, n.St, n.E, n.P = "s", op.V, docStyle(op.St), nil, nil
 		case "style":
-			n.St = op.St
+			n.St = docStyle(op.St)
 		case "del":
 			if parentOf[n] == nil {
 				return nil, fmt.Errorf("del: the root cannot be deleted")
@@ -324,7 +345,7 @@ type DocToken struct {
 	Role string `json:"role"` // key | val | node | dash
 	Line int    `json:"line"`
 	Col  int    `json:"col"`
-	End  int    `json:"end"` // column of the last character of the token (same line)
+	End  int    `json:"end"`         // column of the last character of the token (same line)
 	Q    bool   `json:"q,omitempty"` // scalar written with quotes (actionlint's String.Quoted)
 }
 
